@@ -169,6 +169,22 @@ pub fn compose_inventory(lang: &Lang) -> Vec<(char, char, char)> {
     out
 }
 
+/// The language's composition inventory from the specification side: the frozen copy of its compose
+/// table, each value cross-checked against the harness's Unicode table (a pair whose frozen value is not
+/// the canonical composition would be a harness bug and panics here).
+pub fn frozen_inventory(l: L) -> Vec<(char, char, char)> {
+    frozen_compose(l)
+        .iter()
+        .map(|(from, to)| {
+            let f: Vec<char> = from.chars().collect();
+            let t: Vec<char> = to.chars().collect();
+            assert!(f.len() == 2 && t.len() == 1, "frozen compose row {:?}", from);
+            assert!(UNICODE_PAIRS.iter().any(|&(b, m, p)| b == f[0] && m == f[1] && p == t[0]), "frozen compose row {:?} is not canonical", from);
+            (f[0], f[1], t[0])
+        })
+        .collect()
+}
+
 /// Greedy left-to-right composition of the pairs in `inv`.
 pub fn ref_compose(inv: &[(char, char, char)], input: &[char]) -> Vec<char> {
     let mut out = Vec::with_capacity(input.len());
